@@ -176,52 +176,7 @@ func runC10(c *Ctx) {
 
 	// ---- R4 ------------------------------------------------------------------------------------
 	c.Rule("R4", "time-queue bundles: each ConsumeIdsFromTimeQueue call passes prefix/get/delete-all/append of the same queue and a positive constant limit, and iterates its result; inside, the slot computation is limit - len(result accumulator), entries later than the block time end the scan, and processed timestamps are deleted", 12)
-	type bundle struct{ caller, prefix, get, del, app string }
-	bundles := []bundle{
-		{"pk.Keeper.BeginBlockLaunchConsumers", "pt.SpawnTimeToConsumerIdsKeyPrefix", "pk.Keeper.GetConsumersToBeLaunched", "pk.Keeper.DeleteAllConsumersToBeLaunched", "pk.Keeper.AppendConsumerToBeLaunched"},
-		{"pk.Keeper.BeginBlockRemoveConsumers", "pt.RemovalTimeToConsumerIdsKeyPrefix", "pk.Keeper.GetConsumersToBeRemoved", "pk.Keeper.DeleteAllConsumersToBeRemoved", "pk.Keeper.AppendConsumerToBeRemoved"},
-		{"pk.Keeper.BeginBlockUpdateInfractionParameters", "pt.InfractionScheduledTimeToConsumerIdsKeyPrefix", "pk.Keeper.GetFromInfractionUpdateSchedule", "pk.Keeper.DeleteAllConsumersFromInfractionUpdateSchedule", "pk.Keeper.AddToInfractionUpdateSchedule"},
-	}
-	sitesQ, _ := c.Callers("pk.Keeper.ConsumeIdsFromTimeQueue")
-	for _, s := range sitesQ {
-		cl, ok := s.(ssa.CallInstruction)
-		f := topFn(s.Parent())
-		if !ok {
-			c.Undecided(fk(f, "queue-bundle"), s, "ConsumeIdsFromTimeQueue used as a value")
-			continue
-		}
-		var b *bundle
-		for i := range bundles {
-			if ssaFuncName(f) == q(bundles[i].caller) {
-				b = &bundles[i]
-			}
-		}
-		if b == nil {
-			c.Check(false, fk(f, "queue-bundle"), s, "unexpected caller of ConsumeIdsFromTimeQueue (not one of the three begin-block queue drivers)")
-			continue
-		}
-		c.Check(PCall(b.prefix, -1, nil)(arg(cl, 1)), fk(f, "queue-bundle", "prefix"), s, "prefix = "+shortName(q(b.prefix))+"(); found "+describe(arg(cl, 1)))
-		for i, want := range []string{b.get, b.del, b.app} {
-			got := boundMethodName(arg(cl, 2+i))
-			c.Check(got == q(want), fk(f, "queue-bundle", []string{"get", "delete-all", "append"}[i]), s, "accessor = "+shortName(q(want))+"; found "+shortName(got))
-		}
-		lim, isC := constInt(arg(cl, 5))
-		c.Check(isC && lim > 0, fk(f, "queue-bundle", "limit"), s, fmt.Sprintf("limit is a positive constant (found %d)", lim))
-		// the result is what the driver iterates
-		used := false
-		if ex := extractOf(cl, 0); ex != nil {
-			for _, r := range *ex.Referrers() {
-				if _, isIdx := r.(*ssa.IndexAddr); isIdx {
-					used = true
-				}
-				if _, isRange := r.(*ssa.Range); isRange {
-					used = true
-				}
-			}
-		}
-		c.Check(used, fk(f, "queue-bundle", "iterates-result"), s, "the driver iterates the returned ids")
-	}
-	c.Check(len(sitesQ) == 3, "ConsumeIdsFromTimeQueue/three-drivers", nil, fmt.Sprintf("three begin-block drivers use the time-queue consumer (found %d)", len(sitesQ)))
+	checkQueueBundles(c, "")
 	// accessors agree on the key constructor of their queue
 	for _, fam := range [][]string{
 		{"pt.SpawnTimeToConsumerIdsKey", "pk.Keeper.GetConsumersToBeLaunched", "pk.Keeper.AppendConsumerToBeLaunched", "pk.Keeper.RemoveConsumerToBeLaunched", "pk.Keeper.DeleteAllConsumersToBeLaunched"},
@@ -424,6 +379,14 @@ func runC10(c *Ctx) {
 		for _, s := range Calls(f, false, "pk.Keeper.SetConsumerChainId", "pk.Keeper.SetConsumerInitializationParameters") {
 			c.GuardedBy(s, fk(f, "prelaunch-only", shortName(calleeName(s))), prelaunched)
 		}
+		if w := c.one(f, false, "pk.Keeper.SetConsumerInitializationParameters"); w != nil {
+			c.RequestProcessed(f, "InitializationParameters", fk(f, "initialization-request-is-written"), w)
+		}
+		if ic := c.one(f, false, "pk.Keeper.InitializeConsumer"); ic != nil {
+			for _, r := range successReturns(f) {
+				c.Check(mustPassBefore(r, ic), fk(f, "always-attempts-initialization"), r, "every success return passes InitializeConsumer (a consumer with complete parameters is scheduled)")
+			}
+		}
 		if rm := c.one(f, false, "pk.Keeper.RemoveConsumerToBeLaunched"); rm != nil {
 			prev := PField(PCall("pk.Keeper.GetConsumerInitializationParameters", 0, nil, nil, id), "SpawnTime")
 			c.Check(id(arg(rm, 1)) && prev(arg(rm, 2)), fk(f, "unschedule-at-previous-spawn-time"), rm, "the queue entry removed is (this consumer, previously stored spawn time); found "+describe(arg(rm, 2)))
@@ -558,4 +521,61 @@ func fieldBase(v ssa.Value) ssa.Value {
 		v = b
 	}
 	return v
+}
+
+// checkQueueBundles: each ConsumeIdsFromTimeQueue call passes prefix/get/delete-all/append of one
+// queue (only == "": all three drivers; otherwise just the named driver).
+func checkQueueBundles(c *Ctx, only string) {
+	type bundle struct{ caller, prefix, get, del, app string }
+	bundles := []bundle{
+		{"pk.Keeper.BeginBlockLaunchConsumers", "pt.SpawnTimeToConsumerIdsKeyPrefix", "pk.Keeper.GetConsumersToBeLaunched", "pk.Keeper.DeleteAllConsumersToBeLaunched", "pk.Keeper.AppendConsumerToBeLaunched"},
+		{"pk.Keeper.BeginBlockRemoveConsumers", "pt.RemovalTimeToConsumerIdsKeyPrefix", "pk.Keeper.GetConsumersToBeRemoved", "pk.Keeper.DeleteAllConsumersToBeRemoved", "pk.Keeper.AppendConsumerToBeRemoved"},
+		{"pk.Keeper.BeginBlockUpdateInfractionParameters", "pt.InfractionScheduledTimeToConsumerIdsKeyPrefix", "pk.Keeper.GetFromInfractionUpdateSchedule", "pk.Keeper.DeleteAllConsumersFromInfractionUpdateSchedule", "pk.Keeper.AddToInfractionUpdateSchedule"},
+	}
+	sitesQ, _ := c.Callers("pk.Keeper.ConsumeIdsFromTimeQueue")
+	for _, s := range sitesQ {
+		cl, ok := s.(ssa.CallInstruction)
+		f := topFn(s.Parent())
+		if !ok {
+			c.Undecided(fk(f, "queue-bundle"), s, "ConsumeIdsFromTimeQueue used as a value")
+			continue
+		}
+		var b *bundle
+		for i := range bundles {
+			if ssaFuncName(f) == q(bundles[i].caller) {
+				b = &bundles[i]
+			}
+		}
+		if only != "" && ssaFuncName(f) != q(only) {
+			continue
+		}
+		if b == nil {
+			c.Check(false, fk(f, "queue-bundle"), s, "unexpected caller of ConsumeIdsFromTimeQueue (not one of the three begin-block queue drivers)")
+			continue
+		}
+		c.Check(PCall(b.prefix, -1, nil)(arg(cl, 1)), fk(f, "queue-bundle", "prefix"), s, "prefix = "+shortName(q(b.prefix))+"(); found "+describe(arg(cl, 1)))
+		for i, want := range []string{b.get, b.del, b.app} {
+			got := boundMethodName(arg(cl, 2+i))
+			c.Check(got == q(want), fk(f, "queue-bundle", []string{"get", "delete-all", "append"}[i]), s, "accessor = "+shortName(q(want))+"; found "+shortName(got))
+		}
+		lim, isC := constInt(arg(cl, 5))
+		c.Check(isC && lim > 0, fk(f, "queue-bundle", "limit"), s, fmt.Sprintf("limit is a positive constant (found %d)", lim))
+		// the result is what the driver iterates
+		used := false
+		if ex := extractOf(cl, 0); ex != nil {
+			for _, r := range *ex.Referrers() {
+				if _, isIdx := r.(*ssa.IndexAddr); isIdx {
+					used = true
+				}
+				if _, isRange := r.(*ssa.Range); isRange {
+					used = true
+				}
+			}
+		}
+		c.Check(used, fk(f, "queue-bundle", "iterates-result"), s, "the driver iterates the returned ids")
+	}
+	if only != "" {
+		return
+	}
+	c.Check(len(sitesQ) == 3, "ConsumeIdsFromTimeQueue/three-drivers", nil, fmt.Sprintf("three begin-block drivers use the time-queue consumer (found %d)", len(sitesQ)))
 }
